@@ -330,6 +330,7 @@ func c11(r *lp.Run) {
 	c11SumCycles(r, r.Rng.Fork(1102))
 	c11Located(r)
 	c11Shapes(r)
+	c11DocSplit(r, r.Rng.Fork(1105))
 	c11Positions(r)
 	// past failures and witnesses of known classes
 	for _, o := range corpusObjs("C11") {
